@@ -6,14 +6,20 @@ import os
 
 VERIF = os.path.dirname(os.path.dirname(os.path.abspath(__file__)))
 rows = []
-for d in sorted(glob.glob(os.path.join(VERIF, "seeded", "*-*"))):
+def _key(path):
+    b = os.path.basename(path)
+    p, n = b.rsplit("-", 1)
+    return (p, int(n))
+
+
+for d in sorted(glob.glob(os.path.join(VERIF, "seeded", "*-*")), key=_key):
     m = json.load(open(os.path.join(d, "meta.json")))
     v = m.get("verified", {})
     rows.append((os.path.basename(d), m["property"], m.get("summary", "").replace("\n", " ").replace("|", "/"),
                  m.get("needs", "").replace("\n", " ").replace("|", "/"), v))
 out = ["# Independently seeded changes and what the checks report on them", "",
        "Each row is one change written by a fresh sub-agent that saw only the property text and its own scratch",
-       "worktree (round 1: ids -1/-2, round 2: -3/-4, round 3: -5/-6).  `tools/seeded.py --record --tests` applies",
+       "worktree (round n: ids -(2n-1) and -2n).  `tools/seeded.py --record [--tests]` applies",
        "the patch in a scratch worktree, runs the author's demonstration with and without it, the repository's own",
        "tests with it, and the quick check of the property with `VERIF_REPO` pointing at the worktree.", "",
        "| id | property | change (author's summary) | needs | demo clean / changed | repo tests | check | first violation reported |",
@@ -23,6 +29,9 @@ for rid, prop, summ, needs, v in rows:
                f"{v.get('demo_with_change', '?')} | {v.get('existing_tests_with_change', '?')} | {v.get('status', '?')} "
                f"({v.get('seconds_to_violation', '?')} s) | {str(v.get('first_violation', ''))[:200].replace('|', '/')} |")
 n = sum(1 for r in rows if r[4].get("status") == "caught")
-out += ["", f"{n} of {len(rows)} caught by the check of their own property."]
+other = [r[0] + " (" + ",".join(r[4].get("caught_by") or []) + ")" for r in rows if r[4].get("status") == "caught-by-other"]
+missed = [r[0] for r in rows if r[4].get("status") not in ("caught", "caught-by-other")]
+out += ["", f"{n} of {len(rows)} caught by the check of their own property; caught by another property's check: "
+        f"{', '.join(other) or 'none'}; not caught: {', '.join(missed) or 'none'} (see DESIGN.md section 11)."]
 open(os.path.join(VERIF, "seeded", "RESULTS.md"), "w").write("\n".join(out) + "\n")
 print(f"{n}/{len(rows)}")
